@@ -4,11 +4,12 @@ from verifkit import read_lines, REPO
 
 REQUIRED = [
     "DaeVerif.C09.Props.reply_carries_client_id_and_question",
-    "DaeVerif.C09.Props.error_reply_carries_client_id_and_question",
     "DaeVerif.C09.Props.no_foreign_answer_cached",
     "DaeVerif.C09.Props.question_unchecked_witness",
     "DaeVerif.C09.Props.singleflight_one_resolution",
     "DaeVerif.C09.Props.singleflight_result_reaches_every_waiter",
+    "DaeVerif.C09.Props.join_while_flight_runs_starts_no_resolution",
+    "DaeVerif.C09.Props.answers_come_from_accepted_upstream_messages",
     "DaeVerif.C09.Props.udp_id_match",
     "DaeVerif.C09.Props.udp_single_call",
     "DaeVerif.C09.Props.udp_flood_discards_socket",
@@ -48,23 +49,42 @@ FLOORS = {
     "quick": {"lines": {"c09udp": 50000, "c09fwd": 55000, "c09ctl": 20000, "c09sched": 60000, "c09pipe": 16000},
               "counters": {"c09ctl": {"ctl.udppath.rounds-completed": 295, "ctl.writers.rendezvous": 500,
                                       "ctl.scenario.coalesce-uncached": 200, "ctl.scenario.optimistic-cache": 300},
-                           "c09pipe": {"pipe.recv.held": 1000, "pipe.cancel": 400, "pipe.closeswap": 600},
+                           "c09pipe": {"pipe.recv.held": 1000, "pipe.cancel": 400, "pipe.closeswap": 600, "pipe.writefail": 150},
                            "c09sched": {"sched.at.e2r": 150, "sched.at.b5": 400}}},
     "thorough": {"lines": {"c09udp": 1700000, "c09fwd": 1600000, "c09ctl": 700000, "c09sched": 1900000, "c09pipe": 560000},
                  "counters": {"c09ctl": {"ctl.udppath.rounds-completed": 1480, "ctl.writers.rendezvous": 15000,
                                          "ctl.scenario.coalesce-uncached": 7000, "ctl.scenario.optimistic-cache": 10000},
-                              "c09pipe": {"pipe.recv.held": 40000, "pipe.cancel": 15000, "pipe.closeswap": 25000},
+                              "c09pipe": {"pipe.recv.held": 40000, "pipe.cancel": 15000, "pipe.closeswap": 25000, "pipe.writefail": 6000},
                               "c09sched": {"sched.at.e2r": 6000, "sched.at.b5": 15000}}},
 }
 
 
+def control_sources():
+    import glob
+    src = ""
+    for f in sorted(glob.glob(os.path.join(REPO, "control", "*.go"))):
+        if not f.endswith("_test.go"):
+            try:
+                src += open(f, encoding="utf-8", errors="replace").read()
+            except OSError:
+                pass
+    return src
+
+
 def hooks_present():
-    """The schedule-replay tie needs the verif-tagged yield points (commit a7e5501)."""
-    try:
-        src = open(os.path.join(REPO, "control", "dns_control.go")).read() + open(os.path.join(REPO, "control", "dns.go")).read()
-    except OSError:
-        return []
-    return [h for h in HOOK_NAMES if ('verifYield("%s"' % h) in src]
+    """The schedule-replay tie needs the verif-tagged yield points (commit a7e5501), wherever in package
+    control the functions live."""
+    src = control_sources()
+    return [h for h in HOOK_NAMES if ('"%s"' % h) in src]
+
+
+def write_shim(ctx):
+    """Sentinel errors the harness classifies with errors.Is; a sentinel that /repo does not (yet / any more)
+    have is nil in the shim, so that the harness still builds against such a tree."""
+    have = "ErrDNSResponseQuestionMismatch" in control_sources()
+    p = os.path.join(ctx.out, "c09_shim_test.go")
+    open(p, "w").write("package control\n\nvar c09ErrMismatch error = %s\n" % ("ErrDNSResponseQuestionMismatch" if have else "nil"))
+    return p
 
 
 def oracle_ctl(ctx, ops, impl):
@@ -196,17 +216,18 @@ def run(ctx):
     stats_all = {}
     streams = list(STREAMS)
     hooks = hooks_present()
+    shim = write_shim(ctx)
     sched_bin = None
     binp = None
     if len(hooks) == len(HOOK_NAMES):
         # one binary for everything: the yield points compile to nothing observable when no hook is installed
-        sched_bin = ctx.go_test_build("control", ["control/c09_test.go", "control/c09_sched_test.go"], "c09s", tags="dae_stub_ebpf,verif")
+        sched_bin = ctx.go_test_build("control", ["control/c09_test.go", "control/c09_sched_test.go", shim], "c09s", tags="dae_stub_ebpf,verif")
         if not sched_bin:
             return 2
         binp = sched_bin
         ctx.cov["schedule_replay"] = "enabled (yield points present in /repo)"
     else:
-        binp = ctx.go_test_build("control", ["control/c09_test.go"], "c09")
+        binp = ctx.go_test_build("control", ["control/c09_test.go", shim], "c09")
         if not binp:
             return 2
         missing = [h for h in HOOK_NAMES if h not in hooks]
